@@ -32,15 +32,16 @@ open Ring
 
 /-! ## full-strength statements -/
 
-/-- every join order of the same membership yields the same ring -/
-def C19_ring_order_independent : Prop :=
+/-- every join order of the same membership yields the same ring (`tb` = the sort key of
+    `add_node`: `.joinOrder` is the code as it is, `.total` the suggested patch) -/
+def C19_ring_order_independent (tb : TieBreak) : Prop :=
   ∀ (hashV : Nat → Nat → Nat) (nodes nodes' : List Nat) (vnodes rf : Nat), nodes.Perm nodes' →
-    (new hashV nodes vnodes rf).ring = (new hashV nodes' vnodes rf).ring
+    (newTB tb hashV nodes vnodes rf).ring = (newTB tb hashV nodes' vnodes rf).ring
 
 /-- … hence the same ordered replica list for every key -/
-def C19_replicas_order_independent : Prop :=
+def C19_replicas_order_independent (tb : TieBreak) : Prop :=
   ∀ (hashV : Nat → Nat → Nat) (nodes nodes' : List Nat) (vnodes rf keyPos : Nat), nodes.Perm nodes' →
-    getReplicas (new hashV nodes vnodes rf) keyPos = getReplicas (new hashV nodes' vnodes rf) keyPos
+    getReplicas (newTB tb hashV nodes vnodes rf) keyPos = getReplicas (newTB tb hashV nodes' vnodes rf) keyPos
 
 def C19_replicas_count_distinct : Prop :=
   ∀ (hashV : Nat → Nat → Nat) (r : HashRing) (keyPos rf : Nat), Reachable hashV r → 1 ≤ r.vnodes →
@@ -84,41 +85,86 @@ def C19_from_config_peer_ids (a : PeerIdArith) : Prop :=
 /-! ## placement is a function of the membership set -/
 
 /-- **C19 (join order), partial**: under `PosInjective` the ring does not depend on the order in
-    which the members joined.  Missing for `C19_ring_order_independent`: memberships in which two
-    distinct virtual nodes hash to the same position (a 64-bit SipHash collision) — there the
-    statement is false, `ring_order_collision_counterexample`. -/
+    which the members joined — for either sort key.  Missing for `C19_ring_order_independent .joinOrder`:
+    memberships in which two distinct virtual nodes hash to the same position (a 64-bit SipHash
+    collision) — there the statement is false for the code as it is: `ring_order_collision_counterexample`
+    (abstract hash) and `ring_order_sip13_counterexample` (the REAL hash, two real node ids). -/
+theorem ring_order_independent_tb_partial (tb : TieBreak) (hashV : Nat → Nat → Nat) (nodes nodes' : List Nat)
+    (vnodes rf : Nat) (hp : nodes.Perm nodes') (hinj : PosInjective hashV nodes vnodes) :
+    (newTB tb hashV nodes vnodes rf).ring = (newTB tb hashV nodes' vnodes rf).ring := by
+  apply ring_eq_of_same_members (newTB_reachable tb hashV nodes vnodes rf) (newTB_reachable tb hashV nodes' vnodes rf)
+  · rw [(newTB_vnodes tb hashV nodes vnodes rf).1, (newTB_vnodes tb hashV nodes' vnodes rf).1]
+  · intro y; rw [mem_phys_newTB, mem_phys_newTB]; exact hp.mem_iff
+  · rw [(newTB_vnodes tb hashV nodes vnodes rf).1]
+    intro a ha b hb
+    exact hinj a (mem_phys_newTB.mp ha) b (mem_phys_newTB.mp hb)
+
 theorem ring_order_independent_partial (hashV : Nat → Nat → Nat) (nodes nodes' : List Nat)
     (vnodes rf : Nat) (hp : nodes.Perm nodes') (hinj : PosInjective hashV nodes vnodes) :
-    (new hashV nodes vnodes rf).ring = (new hashV nodes' vnodes rf).ring := by
-  apply ring_eq_of_same_members (new_reachable hashV nodes vnodes rf) (new_reachable hashV nodes' vnodes rf)
-  · rw [(new_vnodes hashV nodes vnodes rf).1, (new_vnodes hashV nodes' vnodes rf).1]
-  · intro y; rw [mem_phys_new, mem_phys_new]; exact hp.mem_iff
-  · rw [(new_vnodes hashV nodes vnodes rf).1]
-    intro a ha b hb
-    exact hinj a (mem_phys_new.mp ha) b (mem_phys_new.mp hb)
+    (new hashV nodes vnodes rf).ring = (new hashV nodes' vnodes rf).ring :=
+  ring_order_independent_tb_partial _ hashV nodes nodes' vnodes rf hp hinj
+
+/-- equal rings of two reachable values with the same membership set give equal replica lists -/
+theorem replicas_eq_of_ring_eq {hashV : Nat → Nat → Nat} {r₁ r₂ : HashRing} (h1 : Reachable hashV r₁)
+    (h2 : Reachable hashV r₂) (hm : ∀ y, y ∈ r₁.phys ↔ y ∈ r₂.phys) (hring : r₁.ring = r₂.ring) (keyPos rf : Nat) :
+    getReplicasWithRf r₁ keyPos rf = getReplicasWithRf r₂ keyPos rf := by
+  have hlen : r₁.phys.length = r₂.phys.length := by
+    apply Nat.le_antisymm
+    · exact nodup_subset_length h1.wf.physNodup (fun a ha => (hm a).mp ha)
+    · exact nodup_subset_length h2.wf.physNodup (fun a ha => (hm a).mpr ha)
+  rw [getReplicasWithRf_eq h1.wf.sorted, getReplicasWithRf_eq h2.wf.sorted, hring, hlen]
 
 /-- **C19 (same replica list on every node), partial** (same hypothesis) -/
+theorem replicas_order_independent_tb_partial (tb : TieBreak) (hashV : Nat → Nat → Nat) (nodes nodes' : List Nat)
+    (vnodes rf keyPos : Nat) (hp : nodes.Perm nodes') (hinj : PosInjective hashV nodes vnodes) :
+    getReplicas (newTB tb hashV nodes vnodes rf) keyPos = getReplicas (newTB tb hashV nodes' vnodes rf) keyPos := by
+  unfold getReplicas
+  rw [(newTB_vnodes tb hashV nodes vnodes rf).2, (newTB_vnodes tb hashV nodes' vnodes rf).2]
+  exact replicas_eq_of_ring_eq (newTB_reachable tb hashV nodes vnodes rf) (newTB_reachable tb hashV nodes' vnodes rf)
+    (fun y => by rw [mem_phys_newTB, mem_phys_newTB]; exact hp.mem_iff)
+    (ring_order_independent_tb_partial tb hashV nodes nodes' vnodes rf hp hinj) keyPos rf
+
 theorem replicas_order_independent_partial (hashV : Nat → Nat → Nat) (nodes nodes' : List Nat)
     (vnodes rf keyPos : Nat) (hp : nodes.Perm nodes') (hinj : PosInjective hashV nodes vnodes) :
-    getReplicas (new hashV nodes vnodes rf) keyPos = getReplicas (new hashV nodes' vnodes rf) keyPos := by
-  have h1 := new_reachable hashV nodes vnodes rf
-  have h2 := new_reachable hashV nodes' vnodes rf
-  have hlen : (new hashV nodes vnodes rf).phys.length = (new hashV nodes' vnodes rf).phys.length := by
-    apply Nat.le_antisymm
-    · apply nodup_subset_length h1.wf.physNodup
-      intro a ha; exact mem_phys_new.mpr (hp.mem_iff.mp (mem_phys_new.mp ha))
-    · apply nodup_subset_length h2.wf.physNodup
-      intro a ha; exact mem_phys_new.mpr (hp.mem_iff.mpr (mem_phys_new.mp ha))
+    getReplicas (new hashV nodes vnodes rf) keyPos = getReplicas (new hashV nodes' vnodes rf) keyPos :=
+  replicas_order_independent_tb_partial _ hashV nodes nodes' vnodes rf keyPos hp hinj
+
+/-- **C19 (join order), FULL statement, for the patched sort key**: when `add_node` sorts by
+    (position, node id, virtual index) the ring is a function of the membership SET — for EVERY
+    hash function (colliding or not), every membership, every two join orders, every vnode count.
+    No hypothesis about SipHash is left. -/
+theorem ring_order_independent_total : C19_ring_order_independent .total := by
+  intro hashV nodes nodes' vnodes rf hp
+  apply ring_eq_of_same_members_total (newTB_reachable .total hashV nodes vnodes rf)
+    (newTB_reachable .total hashV nodes' vnodes rf) (newTB_tb ..) (newTB_tb ..)
+  · rw [(newTB_vnodes .total hashV nodes vnodes rf).1, (newTB_vnodes .total hashV nodes' vnodes rf).1]
+  · intro y; rw [mem_phys_newTB, mem_phys_newTB]; exact hp.mem_iff
+
+/-- … hence every node computes the same ordered replica list for every key (FULL statement) -/
+theorem replicas_order_independent_total : C19_replicas_order_independent .total := by
+  intro hashV nodes nodes' vnodes rf keyPos hp
   unfold getReplicas
-  rw [getReplicasWithRf_eq h1.wf.sorted, getReplicasWithRf_eq h2.wf.sorted,
-    ring_order_independent_partial hashV nodes nodes' vnodes rf hp hinj, hlen,
-    (new_vnodes hashV nodes vnodes rf).2, (new_vnodes hashV nodes' vnodes rf).2]
+  rw [(newTB_vnodes .total hashV nodes vnodes rf).2, (newTB_vnodes .total hashV nodes' vnodes rf).2]
+  exact replicas_eq_of_ring_eq (newTB_reachable .total hashV nodes vnodes rf) (newTB_reachable .total hashV nodes' vnodes rf)
+    (fun y => by rw [mem_phys_newTB, mem_phys_newTB]; exact hp.mem_iff)
+    (ring_order_independent_total hashV nodes nodes' vnodes rf hp) keyPos rf
+
+/-- the same for ANY two reachable rings (any history of `add_node` / `remove_node`, not only
+    `new`) that hold the same membership set: with the patched sort key the ring is determined -/
+theorem ring_determined_by_members_total (hashV : Nat → Nat → Nat) (r₁ r₂ : HashRing)
+    (h1 : Reachable hashV r₁) (h2 : Reachable hashV r₂) (ht1 : r₁.tb = .total) (ht2 : r₂.tb = .total)
+    (hv : r₁.vnodes = r₂.vnodes) (hm : ∀ y, y ∈ r₁.phys ↔ y ∈ r₂.phys) (keyPos rf : Nat) :
+    r₁.ring = r₂.ring ∧ getReplicasWithRf r₁ keyPos rf = getReplicasWithRf r₂ keyPos rf :=
+  ⟨ring_eq_of_same_members_total h1 h2 ht1 ht2 hv hm,
+   replicas_eq_of_ring_eq h1 h2 hm (ring_eq_of_same_members_total h1 h2 ht1 ht2 hv hm) keyPos rf⟩
 
 /-- **C19 (join order), for the positions the code computes**: `hash_virtual_node(node, i) =
     sip(node as 8 LE bytes, i as 4 LE bytes)`; for every collision-free byte hash `sip`, every
     membership, every two join orders, every vnode count: the same ring, hence (next theorem) the
-    same replica list for every key on every node.  What is assumed is a property of the 64-bit
-    hash function, not of the memberships used. -/
+    same replica list for every key on every node.  NOTE (session 4): the hypothesis is a property
+    of the hash function — and the REAL function does not have it (`sip13_vnode_collision`,
+    `sip13_not_injective`): for SipHash-1-3 these two theorems say nothing; what holds for the real
+    hash is `_partial` (per membership) and, for the patched sort key, `ring_order_independent_total`. -/
 theorem ring_order_independent_sip (sip : List Nat → Nat) (hs : ∀ a b, sip a = sip b → a = b)
     (nodes nodes' : List Nat) (vnodes rf : Nat) (hp : nodes.Perm nodes') :
     (new (vnodePos sip) nodes vnodes rf).ring = (new (vnodePos sip) nodes' vnodes rf).ring :=
@@ -130,16 +176,82 @@ theorem replicas_order_independent_sip (sip : List Nat → Nat) (hs : ∀ a b, s
       = getReplicas (new (vnodePos sip) nodes' vnodes rf) (keyPosOf sip kb key) :=
   replicas_order_independent_partial (vnodePos sip) nodes nodes' vnodes rf _ hp (posInjective_vnodePos hs nodes vnodes)
 
-/-- the hypothesis is necessary: with colliding positions the stable sort keeps join order -/
+/-- the hypothesis is necessary for the code as it is: with colliding positions the stable sort
+    by position alone keeps join order -/
 theorem ring_order_collision_counterexample :
-    (new (fun _ _ => 7) [1, 2] 1 1).ring ≠ (new (fun _ _ => 7) [2, 1] 1 1).ring
-    ∧ getReplicas (new (fun _ _ => 7) [1, 2] 1 1) 0 ≠ getReplicas (new (fun _ _ => 7) [2, 1] 1 1) 0 := by
+    (newTB .joinOrder (fun _ _ => 7) [1, 2] 1 1).ring ≠ (newTB .joinOrder (fun _ _ => 7) [2, 1] 1 1).ring
+    ∧ getReplicas (newTB .joinOrder (fun _ _ => 7) [1, 2] 1 1) 0 ≠ getReplicas (newTB .joinOrder (fun _ _ => 7) [2, 1] 1 1) 0 := by
   decide
 
-theorem C19_ring_order_independent_false : ¬ C19_ring_order_independent := by
+theorem C19_ring_order_independent_false : ¬ C19_ring_order_independent .joinOrder := by
   intro h
   exact ring_order_collision_counterexample.1
     (h (fun _ _ => 7) [1, 2] [2, 1] 1 1 (List.Perm.swap 2 1 []))
+
+/-! ### a REAL collision of `hash_virtual_node` (session 4)
+
+  Found by a distinguished-point collision search over `node ↦ SipHash-1-3(node as u64 LE ++ 0u32 LE)`
+  (≈ 2³² evaluations, one minute): two replica ids whose FIRST virtual node lands on the same ring
+  position.  The kernel evaluates `Sip.sip13` (the transcription of `DefaultHasher`) on both. -/
+
+def collA : Nat := 8995953703207198936
+def collB : Nat := 7408622316112464113
+def collPos : Nat := 10313838947909466769
+
+/-- `hash_virtual_node(ReplicaId(collA), 0) = hash_virtual_node(ReplicaId(collB), 0)` -/
+theorem sip13_vnode_collision :
+    vnodePos Sip.sip13 collA 0 = collPos ∧ vnodePos Sip.sip13 collB 0 = collPos ∧ collA ≠ collB
+    ∧ collA < 2 ^ 64 ∧ collB < 2 ^ 64 := by
+  decide
+
+/-- the 64-bit function is not collision-free on the inputs of `hash_virtual_node` (of course: it
+    maps 2⁹⁶ inputs to 2⁶⁴ values — but here are two): the hypothesis of `ring_order_independent_sip`
+    is false for the real hash, `PosInjective` fails for a real two-node membership -/
+theorem sip13_not_injective : ¬ (∀ a b, Sip.sip13 a = Sip.sip13 b → a = b) := by
+  intro h
+  have := h (HB.le64 collA ++ HB.le32 0) (HB.le64 collB ++ HB.le32 0)
+    (by have := sip13_vnode_collision; unfold vnodePos at this; rw [this.1, this.2.1])
+  revert this; decide
+
+theorem sip13_not_posInjective : ¬ PosInjective (vnodePos Sip.sip13) [collA, collB] 1 := by
+  intro h
+  have := (h collA (by simp) collB (by simp) 0 (by omega) 0 (by omega)
+    (by rw [sip13_vnode_collision.1, sip13_vnode_collision.2.1])).1
+  exact sip13_vnode_collision.2.2.1 this
+
+/-- **the code as it is, the real hash, a real membership**: `HashRing::new(vec![A, B], 1, 1)` and
+    `HashRing::new(vec![B, A], 1, 1)` are different rings, and EVERY key is placed on `A` by the
+    first and on `B` by the second — two nodes that learnt the same two members in different
+    orders disagree about the owner of every key (known finding
+    `C19:order:position-collision:join-order-decides`, replayed on the real code on every run) -/
+theorem ring_order_sip13_counterexample :
+    (newTB .joinOrder (vnodePos Sip.sip13) [collA, collB] 1 1).ring
+      ≠ (newTB .joinOrder (vnodePos Sip.sip13) [collB, collA] 1 1).ring
+    ∧ ∀ keyPos, getReplicas (newTB .joinOrder (vnodePos Sip.sip13) [collA, collB] 1 1) keyPos = [collA]
+        ∧ getReplicas (newTB .joinOrder (vnodePos Sip.sip13) [collB, collA] 1 1) keyPos = [collB] := by
+  have e1 : newTB .joinOrder (vnodePos Sip.sip13) [collA, collB] 1 1
+      = { ring := [⟨collPos, collA, 0⟩, ⟨collPos, collB, 0⟩], vnodes := 1, rf := 1, phys := [collA, collB], tb := .joinOrder } := by
+    decide
+  have e2 : newTB .joinOrder (vnodePos Sip.sip13) [collB, collA] 1 1
+      = { ring := [⟨collPos, collB, 0⟩, ⟨collPos, collA, 0⟩], vnodes := 1, rf := 1, phys := [collB, collA], tb := .joinOrder } := by
+    decide
+  rw [e1, e2]
+  refine ⟨by decide, ?_⟩
+  intro keyPos
+  have hs : ∀ (x y : Nat), startIdx [⟨collPos, x, 0⟩, ⟨collPos, y, 0⟩] keyPos = 0 := by
+    intro x y
+    unfold startIdx
+    by_cases h : keyPos ≤ collPos <;> simp [List.findIdx_cons, h]
+  constructor <;>
+  · unfold getReplicas getReplicasWithRf
+    simp only [List.length_cons, List.length_nil, Nat.zero_add, hs]
+    decide
+
+/-- … and with the patched sort key the same two memberships give ONE ring -/
+theorem ring_order_sip13_total :
+    (newTB .total (vnodePos Sip.sip13) [collA, collB] 1 1).ring
+      = (newTB .total (vnodePos Sip.sip13) [collB, collA] 1 1).ring :=
+  ring_order_independent_total _ _ _ _ _ (List.Perm.swap _ _ [])
 
 /-! ## exactly min(rf, cluster size) distinct replicas -/
 
